@@ -302,7 +302,7 @@ def mechanical_violations(prop, clog, witness_fn):
             continue
         call = ''
         m = re.search(r'call=(\S+)', det)
-        if m and not re.search(r'@\w+$', key) and key.startswith(('crash/', 'guard/', 'stack-overflow', 'hang', 'sanitizer/', 'ledger/', 'hooks/', 'borrowed')):
+        if m and not re.search(r'@\w+$', key) and key.startswith(('crash/', 'guard/', 'stack-overflow', 'hang', 'runaway', 'sanitizer/', 'ledger/', 'hooks/', 'borrowed')):
             call = '@' + m.group(1)
         out.append(Violation(prop, key + call, det[:600], witness_fn(clog, idx)))
     return out
